@@ -849,7 +849,8 @@ fn join_chunks(chunks: Vec<Chunk>, options: &FormattingOptions) -> String {
         for (piece_idx, str) in chunk.str.split_inclusive('\n').enumerate() {
             let mut ignore = false;
 
-            let inside_comment = piece_idx > 0 && matches!(chunk.ty, Some(ChunkType::Comment)) && {
+            // (a comment inside an operand is part of a chunk of code)
+            let inside_comment = piece_idx > 0 && {
                 let before: String = chunk.str.split_inclusive('\n').take(piece_idx).collect();
                 before.matches("/*").count() > before.matches("*/").count()
             };
